@@ -22,6 +22,7 @@ from pathlib import Path
 
 PY = "/venv/bin/python"
 V = Path(__file__).resolve().parents[1]
+SNAP = Path("/tmp/vc/_snapshot")   # one copy of /verif taken when the tool starts: later edits in /verif do not disturb running evaluations
 
 
 def run(cmd, cwd=None, env=None, timeout=5400):
@@ -67,7 +68,7 @@ def one(spec: str, tier: str):
     vc = Path(f"/tmp/vc/{src}")
     shutil.rmtree(vc, ignore_errors=True)
     vc.parent.mkdir(parents=True, exist_ok=True)
-    run(f"cp -a {V} {vc} && rm -rf {vc}/.git {vc}/replays")
+    run(f"cp -a {SNAP} {vc}")
     results = {}
     for prop in props:
         t0 = time.time()
@@ -118,9 +119,13 @@ def main():
             tier = args[i + 1]; i += 2
         else:
             specs.append(args[i]); i += 1
+    shutil.rmtree(SNAP, ignore_errors=True)
+    SNAP.parent.mkdir(parents=True, exist_ok=True)
+    run(f"cp -a {V} {SNAP} && rm -rf {SNAP}/.git {SNAP}/replays")
     with ThreadPoolExecutor(max_workers=j) as ex:
         for name, r in ex.map(lambda s: one(s, tier), specs):
             print(name, json.dumps(r, indent=1), flush=True)
+    shutil.rmtree(SNAP, ignore_errors=True)
 
 
 if __name__ == "__main__":
